@@ -28,7 +28,7 @@ RULE = ("valid streams of m<=3 chunks of 1-2 pixels; (a) one invalid record of e
 BOUNDS = {"quick": "3 streams; all 4 destinations; every fault point of 5 producers; single-cell file of 3 cells: every h5py call of create_scool (about 190), every invalid-record kind in every chunk of every cell, iterator failure before every chunk of every cell (each recognised cell must be complete; a cell finished earlier stays recognised)", "thorough": "6 streams; both storage modes for faults"}
 ASSUMPTIONS = ["faults are Python exceptions raised at the h5py API boundary; a killed process / torn HDF5 metadata flush is a property of libhdf5 and not explored",
                "what is left INSIDE the failed destination group is not judged"]
-EXPECT_CLASSES = {"*": ["scool:io-fault", "scool:invalid", "scool:iterfail", "invalid:bin-too-large", "invalid:negative-bin", "invalid:lower-triangle", "invalid:duplicate", "invalid:duplicate-other-value", "iterator-failure",
+EXPECT_CLASSES = {"*": ["invalid:idtype-uint32", "invalid:idtype-uint16", "scool:io-fault", "scool:invalid", "scool:iterfail", "invalid:bin-too-large", "invalid:negative-bin", "invalid:lower-triangle", "invalid:duplicate", "invalid:duplicate-other-value", "iterator-failure",
                         "io-fault", "dest:new-file", "dest:new-group", "dest:empty-group", "dest:root", "fault-after-format-attr"]}
 
 BINS = alpha.table_bins(((2, 2), (2, 2)), "chr")
@@ -48,8 +48,8 @@ LINK_DESTS = ["over-hard-link", "over-soft-link"]
 NEIGHBOUR_SKIP = {"new-file": None, "new-group": "/new", "empty-group": "/emptygrp", "root": "/", "over-hard-link": "/lnk", "over-soft-link": "/lnk"}
 
 
-def px(rows):
-    return pd.DataFrame({"bin1_id": np.array([r[0] for r in rows], dtype=np.int64), "bin2_id": np.array([r[1] for r in rows], dtype=np.int64),
+def px(rows, idt=np.int64):
+    return pd.DataFrame({"bin1_id": np.array([r[0] for r in rows], dtype=idt), "bin2_id": np.array([r[1] for r in rows], dtype=idt),
                          "count": np.array([r[2] for r in rows], dtype=np.int64)})
 
 
@@ -168,6 +168,10 @@ def units(tier):
     for s in range(ns if th else 2):
         for producer in ("ordered", "unordered"):
             yield {"leg": "invalid", "stream": s, "dest": "new-group", "producer": producer, "symm": False}
+    # the same invalid records with the bin-id columns in other integer dtypes (unsigned ones cannot hold the negative id: skipped there)
+    for idt in ("uint32", "uint16", "int32", "uint64"):
+        for producer in ("ordered", "unordered"):
+            yield {"leg": "invalid", "stream": 0 if producer == "ordered" else 1, "dest": "new-group", "producer": producer, "idtype": idt}
     yield {"leg": "bigdup"}
     for s in range(ns if th else 2):
         for dest in DESTS:
@@ -195,6 +199,7 @@ def _invalid(R, unit, only):
     stream = STREAMS[unit["stream"]]
     dest, producer = unit["dest"], unit["producer"]
     symm = unit.get("symm", True)
+    idt = np.dtype(unit.get("idtype", "int64"))
     wd = scratch.sub(f"c13_{os.getpid()}")
     R.add("states")
     R.add("traces")
@@ -202,6 +207,8 @@ def _invalid(R, unit, only):
     for kind in ("bin-too-large", "negative-bin", "lower-triangle", "duplicate", "duplicate-other-value"):
         if kind == "lower-triangle" and not symm:
             continue        # a lower-triangle pixel is valid in square storage
+        if kind == "negative-bin" and idt.kind == "u":
+            continue
         for ci, chunk in enumerate(stream):
             for pos in range(len(chunk) + 1):
                 # side: which bin id is bad; for the duplicate kinds: WHICH record of the chunk is repeated at position pos - next to
@@ -230,7 +237,9 @@ def _invalid(R, unit, only):
                         if side:
                             R.cls("invalid:duplicate-apart")
                     rows = chunk[:pos] + [bad] + chunk[pos:]
-                    chunks = [px(c) for c in stream[:ci]] + [px(rows)] + [px(c) for c in stream[ci + 1:]]
+                    chunks = [px(c, idt) for c in stream[:ci]] + [px(rows, idt)] + [px(c, idt) for c in stream[ci + 1:]]
+                    if "idtype" in unit:
+                        R.cls("invalid:idtype-" + idt.name)
                     R.order = (R.order[0], kk)
                     R.ev(1, 1)
                     R.add("transitions")
